@@ -317,6 +317,15 @@ func classify(c *Case, m *model, out *outcome) {
 			break
 		}
 	}
+	for _, w := range c.Widths {
+		if w >= 1<<25-1 {
+			out.label("width_extreme")
+			if c.Cfg.Lines > 0 {
+				out.label("width_extreme_with_truncation")
+			}
+			break
+		}
+	}
 }
 
 func record(c *Case, out *outcome) {
